@@ -154,6 +154,7 @@ inductive Ev where
   | faa (loc : Loc) (ord : Ord) (read arg : Nat)
   | ld (loc : Loc) (ord : Ord) (v : Nat)
   | st (loc : Loc) (ord : Ord) (v : Nat)
+  | swp (loc : Loc) (ord : Ord) (read new : Nat)
   | srcEnter
   | srcExit (r : SrcRes)
   | visit (idx : Option Nat) (v : Nat)
@@ -167,6 +168,7 @@ def Ev.str : Ev → String
   | .faa l o r a => s!"at {l.str} faa {o.str} {r} {a}"
   | .ld l o v => s!"at {l.str} ld {o.str} {v}"
   | .st l o v => s!"at {l.str} st {o.str} {v}"
+  | .swp l o r n => s!"at {l.str} swp {o.str} {r} {n}"
   | .srcEnter => "src enter"
   | .srcExit (.some v) => s!"src exit some {v}"
   | .srcExit .none => "src exit none"
